@@ -16,21 +16,19 @@ Definition convert (md : metainfo) : res bval :=
   | r => r
   end.
 
+(* ValueError of the bencoder (int beyond the digit limit) becomes MetainfoError *)
+Definition encode_m (v : bval) : res bytes :=
+  match encode v with
+  | Err IValue => Err DMetainfo
+  | r => r
+  end.
+
+(* Torrent.dump: validate (if requested), convert, encode -- the statement order is
+   checked by the translator (fail-closed shape test of Torrent.dump) *)
 Definition dump (fs : fsinfo) (do_validate : bool) (md : metainfo) : res bytes :=
-  (fix go (steps : list ex_dstep) (acc : res bval) : res bytes :=
-     match steps with
-     | [] => match acc with
-             | Ok v => match encode v with Err IValue => Err DMetainfo | r => r end
-             | Err e => Err e end
-     | DValidate :: r =>
-         if do_validate then (match validate is_url fs md with Ok _ => go r acc | Err e => Err e end)
-         else go r acc
-     | DConvertEncode :: r =>
-         match convert md with
-         | Ok v => go r (Ok v)
-         | Err e => Err e
-         end
-     end) ex_dump_steps (Err IOther).
+  do _ <- (if do_validate then validate is_url fs md else Ok tt);
+  do bv <- convert md;
+  encode_m bv.
 
 (* the bytes fed to sha1 by Torrent.infohash; [stored] = an explicitly set _infohash *)
 Definition infohash_input (fs : fsinfo) (md : metainfo) : res bytes :=
@@ -40,7 +38,7 @@ Definition infohash_input (fs : fsinfo) (md : metainfo) : res bytes :=
       match encode_dict info with
       | Err IValue | Err IOverflow => Err DMetainfo
       | Err e => Err e
-      | Ok v => match encode v with Err IValue => Err DMetainfo | r => r end
+      | Ok v => encode_m v
       end
   | _ => Err DMetainfo
   end.
@@ -97,73 +95,102 @@ Definition bval_truthy (v : bval) : bool :=
   | BDict l => negb (match l with [] => true | _ => false end)
   end.
 
+Definition catches (x : ex_exc) (l : list ex_exc) : bool :=
+  existsb (fun y => match x, y with
+                    | XDecodingError, XDecodingError | XValueError, XValueError | XOverflowError, XOverflowError
+                    | XMemoryError, XMemoryError | XRecursionError, XRecursionError | XOSError, XOSError => true
+                    | _, _ => false end) l.
+
+(* bencode.decode(content) under the except clause of read_stream *)
+Definition rs_decode (content : bytes) : res bval :=
+  match bdec content with
+  | Err DBdecode => if catches XDecodingError ex_read_decode_catches || catches XValueError ex_read_decode_catches
+                    then Err DBdecode else Err IOther
+  | Err IValue => if catches XValueError ex_read_decode_catches then Err DBdecode else Err IValue
+  | Err IOverflow => if catches XOverflowError ex_read_decode_catches then Err DBdecode else Err IOverflow
+  | r => r
+  end.
+
+(* decode_dict(...) under the except RecursionError clause *)
+Definition rs_convert (v : bval) : res pyval :=
+  match decode_value depth_limit v with
+  | Err IRecursion => if catches XRecursionError ex_read_convert_catches then Err DBdecode else Err IRecursion
+  | r => r
+  end.
+
+(* utils.assert_type(metainfo, ('info',), (dict,), must_exist=validate) *)
+Definition rs_info_check (do_validate : bool) (md : metainfo) : res unit :=
+  match dict_get md (PStr k_info) with
+  | None => if do_validate then Err DMetainfo else Ok tt
+  | Some (PDict _) => Ok tt
+  | Some _ => Err DMetainfo
+  end.
+
+(* torrent.creation_date = metainfo_enc[b'creation date'] under its except clause *)
+Definition rs_cdate (ekvs : list (bytes * bval)) (md : metainfo) : res metainfo :=
+  match bdict_get ekvs k_creation_date with
+  | None => Ok md
+  | Some (BInt z) =>
+      if (ts_min <=? z) && (z <=? ts_max)
+      then Ok (dict_put md (PStr k_creation_date) (PDatetime z))
+      else (* ValueError / OverflowError / OSError from datetime.fromtimestamp *)
+        if catches XValueError ex_read_cdate_catches && catches XOverflowError ex_read_cdate_catches
+           && catches XOSError ex_read_cdate_catches
+        then Err DMetainfo else Err IOverflow
+  | Some v => if bval_truthy v
+              then (if catches XValueError ex_read_cdate_catches then Err DMetainfo else Err IValue)
+              else Ok (dict_del md (PStr k_creation_date))
+  end.
+
+Definition rs_private (info_enc : option bval) (md : metainfo) : metainfo :=
+  match info_enc with
+  | Some (BDict ikvs) =>
+      match bdict_get ikvs k_private with
+      | Some v =>
+          match dict_get (ensure_info md) (PStr k_info) with
+          | Some (PDict info) =>
+              dict_put (ensure_info md) (PStr k_info)
+                       (PDict (dict_put info (PStr k_private) (PBool (bval_truthy v))))
+          | _ => md end
+      | None => md end
+  | _ => md
+  end.
+
+(* pieces are taken out before decoding and put back raw *)
+Definition rs_strip_pieces (ekvs : list (bytes * bval)) : option bval * list (bytes * bval) :=
+  match bdict_get ekvs k_info with
+  | Some (BDict ikvs) =>
+      match bdict_get ikvs k_pieces with
+      | Some p => (Some p, bdict_put ekvs k_info (BDict (bdict_del ikvs k_pieces)))
+      | None => (None, ekvs)
+      end
+  | _ => (None, ekvs)
+  end.
+
+Definition rs_restore_pieces (pieces : option bval) (md : metainfo) : metainfo :=
+  match pieces, dict_get md (PStr k_info) with
+  | Some p, Some (PDict info) =>
+      dict_put md (PStr k_info) (PDict (dict_put info (PStr k_pieces) (raw_of_bval depth_limit p)))
+  | _, _ => md
+  end.
+
+Definition rs_finish (do_validate : bool) (md : metainfo) : res metainfo :=
+  if do_validate then (do _ <- validate is_url FSNone md; Ok (ensure_info md)) else Ok md.
+
 Definition read_stream (do_validate : bool) (content : bytes) : res metainfo :=
   if Z.of_nat (length content) >? ex_max_torrent_file_size then Err IValue
   else
-  do enc <- (match bdec content with
-             | Err DBdecode => if existsb (fun x => match x with XDecodingError | XValueError => true | _ => false end) ex_read_decode_catches
-                               then Err DBdecode else Err IOther
-             | Err IValue => if existsb (fun x => match x with XValueError => true | _ => false end) ex_read_decode_catches
-                             then Err DBdecode else Err IValue
-             | Err IOverflow => if existsb (fun x => match x with XOverflowError => true | _ => false end) ex_read_decode_catches
-                                then Err DBdecode else Err IOverflow
-             | r => r end);
+  do enc <- rs_decode content;
   match enc with
   | BDict ekvs =>
-      (* extract 'pieces' before decoding *)
-      let info_enc := bdict_get ekvs k_info in
-      let pieces := match info_enc with
-                    | Some (BDict ikvs) => bdict_get ikvs k_pieces
-                    | _ => None end in
-      let ekvs1 := match info_enc, pieces with
-                   | Some (BDict ikvs), Some _ => bdict_put ekvs k_info (BDict (bdict_del ikvs k_pieces))
-                   | _, _ => ekvs end in
-      do dec <- (match decode_value depth_limit (BDict ekvs1) with
-                 | Err IRecursion => if existsb (fun x => match x with XRecursionError => true | _ => false end) ex_read_convert_catches
-                                     then Err DBdecode else Err IRecursion
-                 | r => r end);
+      let '(pieces, ekvs1) := rs_strip_pieces ekvs in
+      do dec <- rs_convert (BDict ekvs1);
       match dec with
       | PDict md0 =>
-          let md1 := match pieces, dict_get md0 (PStr k_info) with
-                     | Some p, Some (PDict info) =>
-                         dict_put md0 (PStr k_info) (PDict (dict_put info (PStr k_pieces) (raw_of_bval depth_limit p)))
-                     | _, _ => md0 end in
-          (* utils.assert_type(metainfo, ('info',), (dict,), must_exist=validate) *)
-          do _ <- (match dict_get md1 (PStr k_info) with
-                   | None => if do_validate then Err DMetainfo else Ok tt
-                   | Some (PDict _) => Ok tt
-                   | Some _ => Err DMetainfo end);
-          (* creation date *)
-          do md2 <- (match bdict_get ekvs k_creation_date with
-                     | None => Ok md1
-                     | Some (BInt z) =>
-                         if (ts_min <=? z) && (z <=? ts_max)
-                         then Ok (dict_put md1 (PStr k_creation_date) (PDatetime z))
-                         else (* ValueError / OverflowError / OSError from datetime.fromtimestamp *)
-                           if existsb (fun x => match x with XValueError => true | _ => false end) ex_read_cdate_catches
-                              && existsb (fun x => match x with XOverflowError => true | _ => false end) ex_read_cdate_catches
-                              && existsb (fun x => match x with XOSError => true | _ => false end) ex_read_cdate_catches
-                           then Err DMetainfo else Err IOverflow
-                     | Some v => if bval_truthy v
-                                 then (if existsb (fun x => match x with XValueError => true | _ => false end) ex_read_cdate_catches
-                                       then Err DMetainfo else Err IValue)
-                                 else Ok (dict_del md1 (PStr k_creation_date))
-                     end);
-          (* private *)
-          let md3 := match info_enc with
-                     | Some (BDict ikvs) =>
-                         match bdict_get ikvs k_private with
-                         | Some v =>
-                             match dict_get (ensure_info md2) (PStr k_info) with
-                             | Some (PDict info) =>
-                                 dict_put (ensure_info md2) (PStr k_info)
-                                          (PDict (dict_put info (PStr k_private) (PBool (bval_truthy v))))
-                             | _ => md2 end
-                         | None => md2 end
-                     | _ => md2 end in
-          if do_validate
-          then (do _ <- validate is_url FSNone md3; Ok (ensure_info md3))
-          else Ok md3
+          let md1 := rs_restore_pieces pieces md0 in
+          do _ <- rs_info_check do_validate md1;
+          do md2 <- rs_cdate ekvs md1;
+          rs_finish do_validate (rs_private (bdict_get ekvs k_info) md2)
       | _ => Err DBdecode
       end
   | _ => Err DBdecode
